@@ -1,4 +1,4 @@
 SPECIFICATION Spec
-CONSTANTS Mode = "roundtrip"  MaxLen = 0  MaxArgs = 2  MaxArgLen = 3  PruneAt = 0  Sel = 0  Mod = 1
+CONSTANTS Mode = "roundtrip"  MaxLen = 0  MaxArgs = 2  MaxArgLen = 3  WithNB = FALSE  PruneAt = 0  Sel = 0  Mod = 1
 INVARIANTS LawRoundTrip EmitRoundTrip
 CHECK_DEADLOCK FALSE
